@@ -524,6 +524,67 @@ func checkC14(c *hx.Ctx) {
 			}
 		}
 	}
+	// ---------- CAS URI length is a length in bytes: references with multi-byte characters, within the limit counted in
+	// characters and beyond it counted in bytes
+	for bi, fs := range bases[:4] {
+		for _, role := range []string{"core-proof", "prov-index", "prov-proof", "chunk"} {
+			if _, ok := fs.Trees[role]; !ok {
+				continue
+			}
+			for _, d := range []int{0, 1} {
+				n := fs.clone()
+				// (limit/3)+d three-byte characters: limit/3 of them fit the 40-byte limit only when 3*(limit/3) <= limit
+				long := strings.Repeat("\u6587", int(p.MaxCasURILength)/3+d)
+				for len(long) < int(p.MaxCasURILength) && d == 0 {
+					long += "x"
+				}
+				retarget(n, role, long)
+				if !must(n, nil, fmt.Sprintf("cas-uri-multibyte-%d-bytes-%d-characters-vs-%d:%s base%d", len(long), len([]rune(long)), p.MaxCasURILength, role, bi), len(long) <= int(p.MaxCasURILength), nil) {
+					return
+				}
+			}
+		}
+	}
+	// ---------- highly compressible files: the decompressed-size rule applies to the whole inflated content, however
+	// small the compressed file is (valid document followed by blanks beyond limit x factor)
+	for bi, fs := range bases[:3] {
+		for role, tree := range fs.Trees {
+			dl := int(limitFor(p, role)) * int(p.MaxMemoryDecompressionFactor)
+			js := ref.MustJCS(tree)
+			for _, extra := range []int{1, 5000, 200000} {
+				content := append(append([]byte{}, js...), bytes.Repeat([]byte{' '}, dl-len(js)+extra)...)
+				comp := gz(content, gzip.BestCompression)
+				if len(comp) > int(limitFor(p, role)) {
+					continue
+				}
+				if !must(fs, map[string][]byte{role: comp}, fmt.Sprintf("trailing-blanks-past-decompressed-limit:%s +%d base%d (compressed %d bytes)", role, extra, bi, len(comp)), false, nil) {
+					return
+				}
+			}
+		}
+	}
+	// the same under generous limits (20000 bytes x 3), where a small file followed by blanks compresses several hundred times
+	{
+		pBig := p
+		pBig.MaxCoreIndexFileSize, pBig.MaxProofFileSize, pBig.MaxProvisionalIndexFileSize, pBig.MaxChunkFileSize = 20000, 20000, 20000, 20000
+		for bi, fs := range bases {
+			for role, tree := range fs.Trees {
+				js := ref.MustJCS(tree)
+				for _, extra := range []int{1, 60000} {
+					content := append(append([]byte{}, js...), bytes.Repeat([]byte{' '}, 60000-len(js)+extra)...)
+					comp := gz(content, gzip.BestCompression)
+					if !must(fs, map[string][]byte{role: comp}, fmt.Sprintf("trailing-blanks-past-decompressed-limit-generous-limits:%s +%d base%d (compressed %d bytes, ratio %d)", role, extra, bi, len(comp), len(content)/len(comp)), false, func(pc *provCase) { pc.Proto = pBig }) {
+						return
+					}
+				}
+				// control: exactly at the limit is fine
+				content := append(append([]byte{}, js...), bytes.Repeat([]byte{' '}, 60000-len(js))...)
+				if bi < 2 && !must(fs, map[string][]byte{role: gz(content, gzip.BestCompression)}, fmt.Sprintf("trailing-blanks-at-decompressed-limit-generous-limits:%s base%d", role, bi), true, func(pc *provCase) { pc.Proto = pBig }) {
+					return
+				}
+			}
+		}
+	}
 	// ---------- read failures / alternate sources
 	for bi, fs := range bases[:4] {
 		for role := range fs.Trees {
@@ -869,7 +930,7 @@ func checkC14(c *hx.Ctx) {
 	c.Set("worker_crashes", pool.Crashes)
 	for _, k := range []string{"must_true:valid-file-set", "must_true:file-size-at-limit", "must_false:file-size-past-limit", "must_true:decompressed-size-at-limit",
 		"must_false:decompressed-size-past-limit", "must_false:compression-bomb", "must_false:file-size-past-limit-from-alternate-source", "must_false:read-failure-no-alternate",
-		"must_false:inconsistent-file-set", "must_false:anchor-string", "must_false:count-skew-per-shape", "must_false:superfluous-proof-reference-per-shape", "must_false:multi-member-gzip-past-decompressed-limit", "must_false:multi-member-gzip-two-documents", "outcome_ERR:structural", "outcome_OK:structural"} {
+		"must_false:inconsistent-file-set", "must_false:anchor-string", "must_false:count-skew-per-shape", "must_false:superfluous-proof-reference-per-shape", "must_false:multi-member-gzip-past-decompressed-limit", "must_false:multi-member-gzip-two-documents", "must_false:trailing-blanks-past-decompressed-limit", "must_false:trailing-blanks-past-decompressed-limit-generous-limits", "outcome_ERR:structural", "outcome_OK:structural"} {
 		c.Floor(k, 5)
 	}
 	c.Floor("must_true:read-failure-served-by-alternate-1", 4)
